@@ -83,6 +83,19 @@ func TestMonitor(t *testing.T) {
 	}
 }
 
+// TestMonitorViaPubsub: the same monitor spaces with every arrival delivered
+// as a message on the metrics topic (decode path of the monitor).
+func TestMonitorViaPubsub(t *testing.T) {
+	only(t, "mon")
+	desc := "real pubsubmon.Monitor on a mocknet host; every arrival is the msgpack wire form published on the 'monitor.metrics' topic and received through the monitor's own subscription; Watch ticker as in monitor/*"
+	explore(t, space{sec: "monitor-via-pubsub/full-alphabet/peerset-known", cfg: wcfg{World: "monitor", Known: true, Interval: monInterval, NPeers: 3, NNames: 2, Pubsub: true}, bursts: true,
+		depth: tier(2, 3), wallCap: wallCap(), chunk: 100, workers: workers, describe: desc})
+	for _, known := range []bool{true, false} {
+		explore(t, space{sec: "monitor-via-pubsub/one-cell/" + psName(known), cfg: wcfg{World: "monitor", Known: known, Interval: monInterval, NPeers: 1, NNames: 1, Pubsub: true}, bursts: true,
+			depth: tier(4, 6), wallCap: wallCap(), chunk: 100, workers: workers, describe: desc + "; alphabet restricted to (ping, p)"})
+	}
+}
+
 func psName(known bool) string {
 	if known {
 		return "peerset-known"
